@@ -47,6 +47,30 @@ error = _rx.error
 escape = _rx.escape
 
 
+class _Std:
+    """The standard library's engine, for modelled files that import it (`import re`)."""
+
+    ENGINE = "re"
+    FLAGS = {n: int(getattr(_std, n)) for n in ("I", "IGNORECASE", "A", "ASCII", "M", "MULTILINE", "S", "DOTALL", "X", "VERBOSE", "U", "UNICODE")}
+    error = _std.error
+    escape = staticmethod(_std.escape)
+
+    @staticmethod
+    def compile_(pattern: str, flags: int = 0):  # noqa: ANN205
+        return _std.compile(pattern, flags)
+
+
+def engine(name: str):  # noqa: ANN201
+    """The oracle for the engine a modelled file imports under the name `re`: this module itself for `regex`."""
+    import sys  # noqa: PLC0415
+
+    if name == ENGINE:
+        return sys.modules[__name__]
+    if name == "re":
+        return _Std
+    raise AnalysisError(f"the modelled files compile their patterns with `{name}`, which is not importable here")
+
+
 def module_engine(repo, rels: list[str]) -> str:  # noqa: ANN001
     """Which engine the modelled files import as `re`; mixed use is outside the model."""
     seen: set[str] = set()
